@@ -3,6 +3,7 @@
 package otter
 
 import (
+	"math"
 	"fmt"
 	"sort"
 
@@ -255,6 +256,9 @@ func (c *Cache[K, V]) VerifAudit() (out []VerifFinding) {
 		for k, n := range table {
 			switch inWheel[k] {
 			case 0:
+				if n.ExpiresAt() == math.MaxInt64 {
+					continue // no deadline: nothing for the expiration policy to do (upstream links such entries, but need not)
+				}
 				add("alive-node-unlinked", "timer-wheel", "key %v (%s, expiresAt %d) is in the table but has no timer", k, nodeState(cc, n), n.ExpiresAt())
 			case 1:
 			default:
